@@ -50,6 +50,9 @@ def op_cases(tier):
                 ra = "none" if a == "204" else ka
                 rb = "none" if b == "204" else kb
                 out.append(ops.op("get", "/r", [], None, {a: ra, b: rb}))
+    out.append(ops.op("put", "/r", [], None, {"200": "json-inline-typeless-a", "201": "json-inline-typeless-b"}))
+    out.append(ops.op("put", "/r", [], None, {"201": "json-inline-typeless-b", "200": "json-inline-typeless-a"}))
+    out.append(ops.op("put", "/r", [], None, {"200": "none", "201": "json-model"}))
     out.append(ops.op("get", "/r", [], None, {"200": "json-array-inline-a", "201": "json-array-inline-b"}))
     out.append(ops.op("get", "/r", [], None, {"200": "json-array-inline-b", "201": "json-array-inline-a"}))
     out.append(ops.op("get", "/r", [], None, {"200": "json-model", "default": "json-other"}))
